@@ -118,7 +118,9 @@ RULE = ("exhaustive vocabularies (<= 4 distinct tags) x tag / predicted-tag list
         "of <= 2 (<= 3 thorough) of 8 tags over 4 terms x 45 identity patterns (equal terms shared / separate / mixed x probe "
         "term object fresh / own / another tag's x probe new / model_copy(update) / same object / copy / subclass), the "
         "class of the vocabulary tags cycling over Tag / subclass / mixed, and random vocabularies x lists with a pattern "
-        "chosen independently per element for classification / multilabel / prediction; realised identities tallied")
+        "chosen independently per element for classification / multilabel / prediction; realised identities tallied; "
+        "follow-up (wave 6): fully populated terms (every declared field non-None, two extras) with one field changed / "
+        "emptied / dropped, as Term, in Tag / Feature and inside the uuid-hashed classes, all ordered pairs one field apart")
 TRUSTED = ["CPython dict, tuple, str, float and UUID hashing/equality",
            "pydantic-core construction of the data objects (observed through __dict__ / __pydantic_extra__)",
            "numpy float32 assignment (value recomputed with struct.pack('f') and monitored as a contract)",
@@ -2103,6 +2105,88 @@ def _near_cases(ctx):
     return cases
 
 
+# ---- follow-up (wave 6): fully populated terms, one field apart --------------------------------------
+# The one-field variants above start from a term whose optional fields are unset, so a pair of them never carries
+# the same non-None uri (comment, see, ...) while differing elsewhere.  Here EVERY field of Term is set (non-None)
+# on both sides, plus two extras, and exactly one field is changed / emptied / dropped -- for Term, for Tag and
+# Feature on such terms and for the uuid-hashed classes holding them.  == is compared with the model's pyEq
+# (equality is field equality: C19_eq_structural); whenever the real == says True, hash / set / dict / encoder
+# are judged on the real objects.
+def _full_term_pool():
+    """[(label, field, kwargs)]: the fully populated base, a copy, and per field (declared, read from the class, and
+    extras) the base with that one field changed / emptied / dropped"""
+    from soundevent import data
+    fields = list(data.Term.model_fields)
+    base = {f: ("http://x/" + f if f == "uri" else f + "-v") for f in fields}
+    base["+note"], base["+other"] = "n", "o"
+    out = [("base", None, base), ("copy", None, dict(base))]
+    for f in base:
+        fi = data.Term.model_fields.get(f)
+        for j, alt in enumerate(("zz", "", _DROP)):
+            kw = dict(base)
+            if alt is _DROP:
+                if fi is not None and fi.is_required():
+                    continue
+                kw.pop(f)
+            else:
+                kw[f] = alt
+            out.append((f"{f}#{j}", f, kw))
+    out.append(("+more#0", "+more", {**base, "+more": "m"}))
+    return out
+
+
+def _full_cases(ctx):
+    from soundevent import data
+    rng = ctx.rng
+    B = _bases()
+    pool = []
+    for label, f, kw in _full_term_pool():
+        try:
+            _construct("Term", kw)
+        except Exception as e:       # a field that no longer takes a string: said, not a failure of the property
+            ctx.note(f"fully populated term variant {label} cannot be constructed ({type(e).__name__}); not generated")
+            continue
+        pool.append((label, f, kw))
+    T = lambda kw: _construct("Term", kw)  # noqa: E731
+    tag = lambda kw, v="dog": data.Tag(term=T(kw), value=v)  # noqa: E731
+    feat = lambda kw, v=1.5: data.Feature(term=T(kw), value=v)  # noqa: E731
+    ptag = lambda kw: data.PredictedTag(tag=tag(kw), score=0.5)  # noqa: E731
+
+    def inside(c, field, mk):
+        def make(kw):
+            base = B[c][0]()
+            base[field] = mk(kw)
+            return _construct(c, base)
+        return make
+    makers = {"Term": T, "Tag": tag, "Feature": feat,
+              "SoundEvent": inside("SoundEvent", "features", lambda kw: [feat(kw)]),
+              "SoundEventAnnotation": inside("SoundEventAnnotation", "tags", lambda kw: [tag(kw)]),
+              "SoundEventPrediction": inside("SoundEventPrediction", "tags", lambda kw: [ptag(kw)]),
+              "ClipPrediction": inside("ClipPrediction", "features", lambda kw: [feat(kw)])}
+    cases = []
+    for c, mk in makers.items():
+        trees = [(label, f, walk(mk(kw))) for label, f, kw in pool]
+        if c == "Tag":
+            trees.append(("value#0", "value", walk(tag(pool[0][2], "cat"))))
+        if c == "Feature":
+            trees.append(("value#0", "value", walk(feat(pool[0][2], 2.5))))
+        small = c in ("Term", "Tag", "Feature")
+        near, far = [], []
+        for (la, fa, a), (lb, fb, b) in itertools.product(trees, repeat=2):
+            # one field apart (or equal): base / copy against everything, and the variants of one field among themselves
+            (near if fa is None or fb is None or fa == fb else far).append({"a": a, "b": b})
+        if small:
+            n = ctx.budget(400, len(far))
+            far = far if n >= len(far) else rng.sample(far, n)      # two fields apart, the rest shared
+        else:
+            far = []
+        cases += near + far
+        ctx.tally(f"eq_hash full {c}: pairs one field apart, every other field set on both sides", len(near))
+        ctx.tally(f"eq_hash full {c}: pairs two fields apart", len(far))
+    return cases
+
+
+
 def _eq_hash_cases(ctx):
     cases = []
     B = _bases()
@@ -2742,6 +2826,12 @@ def _stage_eq_hash(ctx):
     # eq / hash on the eight classes
     ctx.run_cases(OPS["eq_hash"], _eq_hash_cases(ctx))
     ctx.run_cases(OPS["eq_hash"], _near_cases(ctx))
+    ctx.run_cases(OPS["eq_hash"], _full_cases(ctx))
+    ctx.exhaustive["eq_hash full"] = ("fully populated terms (every declared field non-None, two extras): per field the base "
+                                      "with that field changed / emptied / dropped, as Term, inside Tag and Feature and "
+                                      "inside the uuid-hashed classes; all ordered pairs one field apart (two fields apart: "
+                                      "sampled in quick, all in thorough); judged: == vs field equality (pyEq), == => same "
+                                      "hash => set / dict membership => encoder")
     ctx.exhaustive["eq_hash near"] = ("per hashable class and per scalar in reach of == (own fields and nested objects): all "
                                       "ordered pairs of values 1 ulp / relative 1e-12..1e-9 / absolute 1e-12 apart, int vs "
                                       "float spellings, signed zeros; strings differing by case, blanks, NFC/NFD, "
@@ -3057,5 +3147,6 @@ def search(ctx, failures):
     ctx.run_cases(OPS["prediction"], ({"vocab": v, "preds": p} for v in vocs for p in rng.sample(plists, 30)))
     ctx.run_cases(OPS["eq_hash"], _eq_hash_cases(ctx))
     ctx.run_cases(OPS["eq_hash"], _near_cases(ctx))
+    ctx.run_cases(OPS["eq_hash"], _full_cases(ctx))
     for st in (_stage_generic, _stage_find, _stage_init, _stage_raw, _stage_paths, _stage_extras, _stage_identity, _stage_histories):
         ctx.stage("search:" + st.__name__, st, ctx)
